@@ -81,9 +81,17 @@ func VerifTopK(want massutil.Amount, items []*txmgr.Credit) ([]*txmgr.Credit, in
 // that multi-batch imports are reachable on short chains.
 var VerifImportBatch uint64
 
+// VerifImportOffset: heights up to this one belong to the first shortened batch
+// (a long prefix below the part of the chain a replay is about).
+var VerifImportOffset uint64
+
 func verifImportStop(synced, stop uint64) uint64 {
-	if VerifImportBatch > 0 && stop > synced+VerifImportBatch {
-		return synced + VerifImportBatch
+	from := synced
+	if from < VerifImportOffset {
+		from = VerifImportOffset
+	}
+	if VerifImportBatch > 0 && stop > from+VerifImportBatch {
+		return from + VerifImportBatch
 	}
 	return stop
 }
